@@ -3069,6 +3069,14 @@ static iwrc _jbn_allocated_destroy_visitor(int lvl, struct jbl_node *n) {
   return 0;
 }
 
+static void _jbn_allocated_destroy_children(struct jbl_node *n) {
+  for (struct jbl_node *c = n->child, *next; c; c = next) {
+    next = c->next;
+    jbn_visit2(c, 0, _jbn_allocated_destroy_visitor);
+  }
+  n->child = 0;
+}
+
 static struct jbl_node* _jbl_merge_patch_node(
   struct jbl_node *target,
   struct jbl_node *patch,
@@ -3102,6 +3110,8 @@ static struct jbl_node* _jbl_merge_patch_node(
     } else if (target->type != JBV_OBJECT) {
       if (!pool && target->type == JBV_STR) {
         free((void*) target->vptr);
+      } else if (!pool && target->type == JBV_ARRAY) {
+        _jbn_allocated_destroy_children(target);
       }
       _jbl_node_reset_data(target);
       target->type = JBV_OBJECT;
@@ -3139,6 +3149,9 @@ static struct jbl_node* _jbl_merge_patch_node(
               }
               struct jbl_node *src = _jbl_merge_patch_node(node, patch, 0, rcp);
               if (src != node) {
+                if (node->type >= JBV_OBJECT) {
+                  _jbn_allocated_destroy_children(node);
+                }
                 _jbl_copy_node_data(node, src);
                 if (node->type == JBV_STR) {
                   src->vptr = 0;
